@@ -362,3 +362,21 @@ Example ex_midpoint :
   I_midpoint true 8 [0;0;128] [253;255;255] = Ret [255;255;191] /\
   I_midpoint true 8 [255;255;127] [255;255;127] = Ret [255;255;127].
 Proof. vm_compute. repeat split; try reflexivity; discriminate. Qed.
+
+(* ---- tie to the source: the digit primitives REGENERATED from /repo/src/digit.rs on every run
+   (Generated/DigitGen.v, tools/rs2v_digit.py) are the model's digit primitives, for every digit width ---- *)
+From Bnum.Model Require Import DigitPrims Digit.
+From Bnum.Generated Require Import DigitGen.
+From Bnum.Proofs Require Import DigitTie.
+Theorem C01_digit_rs_matches_model w : 0 < w ->
+  (forall low high, digit_ok w low -> digit_ok w high -> DigitGen.to_double_digit w low high = to_double_digit w low high) /\
+  (forall a b c, DigitGen.carrying_add w a b c = carrying_add w a b c) /\
+  (forall a b c, DigitGen.borrowing_sub w a b c = borrowing_sub w a b c) /\
+  (forall a b c, DigitGen.carrying_add_signed w a b c = carrying_add_signed w a b c) /\
+  (forall a b c, DigitGen.borrowing_sub_signed w a b c = borrowing_sub_signed w a b c) /\
+  (forall a b, digit_ok w a -> digit_ok w b -> DigitGen.widening_mul w a b = widening_mul w a b) /\
+  (forall a b c d, digit_ok w a -> digit_ok w b -> digit_ok w c -> digit_ok w d ->
+                   DigitGen.carrying_mul w a b c d = carrying_mul w a b c d) /\
+  (forall low high rhs, digit_ok w low -> digit_ok w high -> DigitGen.div_rem_wide w low high rhs = div_rem_wide w low high rhs).
+Proof. exact (digit_rs_matches_model w). Qed.
+Print Assumptions C01_digit_rs_matches_model.
